@@ -1,7 +1,7 @@
 (* C13 -- the end-to-end statements, assembled from ProofsRollup (statm, roll-up),
    ProofsSums (the three regex scans), ProofsMaps (block splitter), ProofsGroup
    (grouping, memory_percent). *)
-From PV Require Import C13.Spec C13.Lib C13.ProofsMaps C13.ProofsSums C13.ProofsRollup C13.ProofsGroup.
+From PV Require Import C13.Spec C13.Lib C13.ProofsMaps C13.ProofsSums C13.ProofsRollup C13.ProofsGroup Gen.C13_Tables.
 
 (* _parse_smaps on every kernel-formatted listing *)
 Theorem parse_smaps_spec ex ms : forallb (wf_kernel ex) ms = true ->
@@ -50,14 +50,32 @@ Proof.
   symmetry. apply (full_info_smaps ex); auto.
 Qed.
 
+(* a real kernel's roll-up (Pss kept in sub-kB precision): the record carries the roll-up's
+   Pss, which exceeds the listing's sum by less than one kB per mapping; uss and swap agree *)
+Theorem full_info_rollup_rounded pagesize r ms rl smaps :
+  wf_statm r = true -> wf_rollup rl = true -> rounded rl ms = true ->
+  memory_full_info Alive pagesize true (FContent (k_rollup rl)) smaps (FContent (k_statm r))
+  = Val (spec_full_ru pagesize r ms rl)
+  /\ (let '(_, pss, _) := spec_sums ms in
+      pss <= ru_kb rl FPss * 1024 <= pss + 1024 * Z.of_nat (pred (length ms))).
+Proof.
+  intros Hr Hrl Hc. unfold rounded in Hc.
+  apply andb_true_iff in Hc as [Hc H4]. apply andb_true_iff in Hc as [Hc H3]. apply andb_true_iff in Hc as [H1 H2].
+  apply Z.eqb_eq in H1, H4. apply Z.leb_le in H2, H3. split.
+  - unfold memory_full_info, spec_full_ru, spec_sums. cbn [with_file].
+    rewrite (rollup_parse rl Hrl). cbn [obind]. rewrite (statm_roundtrip pagesize r Hr).
+    rewrite H1, H4. reflexivity.
+  - unfold spec_sums. lia.
+Qed.
+
 Lemma spec_rows_nums ms : nums_ok (map spec_row ms).
 Proof. unfold nums_ok. apply Forall_forall. intros r Hr. apply in_map_iff in Hr as (m & <- & _). reflexivity. Qed.
 
 (* memory_maps(grouped=True) over the kernel's listing *)
-Theorem maps_grouped ex ms : forallb (wf_kernel ex) ms = true ->
+Theorem maps_grouped ex ms : forallb (wf_kernel ex) ms = true -> uniform_figs ms = true ->
   omap group_rows (memory_maps Alive ex (FContent (k_smaps ms))) = Val (spec_grouped (map spec_row ms)).
 Proof.
-  intros H. rewrite (maps_ungrouped ex ms H). unfold omap. cbn [obind].
+  intros H Hu. rewrite (maps_ungrouped ex ms H Hu). unfold omap. cbn [obind].
   now rewrite (group_rows_spec _ (spec_rows_nums ms)).
 Qed.
 
@@ -101,6 +119,10 @@ Proof.
   rewrite !Hf, !Hd. destruct fl as [|f0 fr]; [congruence|]. rewrite Hfl. reflexivity.
 Qed.
 
+Lemma k6_has_fig fv d fl f : In f row_figs -> count_fig f (k6_lines fv d fl) = 1%nat.
+Proof. intros H. cbn in H. repeat (destruct H as [<-|H]; [reflexivity|]). destruct H.
+Qed.
+
 (* ... so they cannot change uss / pss / swap: the roll-up of a current kernel *)
 Theorem k6_rollup_ignores_decoys hdr fv d :
   (forall f, is_dec (fv f) = true) -> (forall i, is_dec (d i) = true) ->
@@ -125,6 +147,10 @@ Proof.
   intros H. assert (W : forallb (wf_kernel ex) ms = true).
   { apply forallb_forall. intros m Hm. destruct (H m Hm) as (Hh & fv & d & fl & El & Hf & Hd & Hne & Hfl).
     unfold wf_kernel. rewrite Hh, El. now apply k6_body_wf. }
+  assert (U : uniform_figs ms = true).
+  { unfold uniform_figs. apply forallb_forall. intros f Hf. apply orb_true_iff. left.
+    apply forallb_forall. intros m Hm. destruct (H m Hm) as (_ & fv & d & fl & El & _).
+    unfold has_fig. rewrite El, (k6_has_fig fv d fl f Hf). reflexivity. }
   split; [now apply (parse_smaps_spec ex)|now apply maps_ungrouped].
 Qed.
 
@@ -162,6 +188,9 @@ Definition ex_m3 : mapping :=   (* name with a blank at the end and a no-break s
      m_lines := [LFig FSize 0 (bs "0"); LFig FRss 0 (bs "0"); LFig FPss 0 (bs "0"); LFig FSharedClean 0 (bs "0");
                  LFig FSharedDirty 0 (bs "0"); LFig FPrivateClean 0 (bs "0"); LFig FPrivateDirty 0 (bs "0");
                  LFig FReferenced 0 (bs "0"); LFig FAnonymous 0 (bs "0"); LFig FSwap 0 (bs "0")] |}.
+Definition ex_m4 : mapping :=   (* a newline in the name: the kernel shows \012 *)
+  {| m_addr := bs "7f0000003000-7f0000004000"; m_perms := bs "r--s"; m_offset := bs "00000000"; m_dev := bs "08:01";
+     m_inode := bs "78"; m_pad := 0; m_path := bs "/tmp/n" ++ [10] ++ bs "l"; m_deleted := true; m_lines := m_lines ex_m3 |}.
 Definition ex_rollup : rollup :=
   {| ru_hdr := bs "00400000-7f0000002000 ---p 00000000 00:00 0    [rollup]";
      ru_lines := [LFig FRss 0 (bs "8"); LFig FPss 1 (bs "8"); LOther (bs "Pss_Anon") 0 (bs "8") true;
@@ -172,8 +201,66 @@ Definition ex_statm : statm :=
      s_data := bs "123"; s_dt := bs "0" |}.
 
 Example hypotheses_satisfiable :
-  forallb (wf_kernel no_files) [ex_m1; ex_m2; ex_m3] = true /\ wf_rollup ex_rollup = true
-  /\ consistent ex_rollup [ex_m1; ex_m2; ex_m3] = true /\ wf_statm ex_statm = true
-  /\ spec_full 4096 ex_statm [ex_m1; ex_m2; ex_m3] = [1277952; 2703360; 1175552; 20480; 0; 503808; 0; 2105344; 8192; 0]
-  /\ map w_path (map spec_row [ex_m1; ex_m2; ex_m3]) = [bs "/tmp/a b:c"; bs "[anon]"; bs "/tmp/x" ++ [194; 160; 32; 9]].
+  forallb (wf_kernel no_files) [ex_m1; ex_m2; ex_m3; ex_m4] = true /\ wf_rollup ex_rollup = true
+  /\ consistent ex_rollup [ex_m1; ex_m2; ex_m3; ex_m4] = true /\ wf_statm ex_statm = true
+  /\ spec_full 4096 ex_statm [ex_m1; ex_m2; ex_m3; ex_m4] = [1277952; 2703360; 1175552; 20480; 0; 503808; 0; 2105344; 8192; 0]
+  /\ map w_path (map spec_row [ex_m1; ex_m2; ex_m3; ex_m4]) = [bs "/tmp/a b:c"; bs "[anon]"; bs "/tmp/x" ++ [194; 160; 32; 9]; bs "/tmp/n\012l"]
+  /\ uniform_figs [ex_m1; ex_m2; ex_m3; ex_m4] = true
+  /\ rounded {| ru_hdr := ru_hdr ex_rollup; ru_lines := LFig FPss 0 (bs "11") :: tl (tl (ru_lines ex_rollup)) ++ [LFig FRss 0 (bs "8")] |}
+             [ex_m1; ex_m2; ex_m3; ex_m4] = true.
 Proof. vm_compute. repeat split. Qed.
+
+(* ------------------------------------------------ hypotheses that cannot be dropped *)
+(* get_blocks creates its dict once per file: a mapping that lacks a line an earlier mapping
+   printed inherits the earlier value -- here Swap of the second mapping (0 in the kernel's
+   accounting, no Swap line) is reported as the first mapping's 8 kB.  No kernel prints such
+   a listing (uniform_figs); C13_maps_ungrouped shows it cannot matter otherwise. *)
+Definition stale_m1 : mapping :=
+  {| m_addr := bs "00400000-00401000"; m_perms := bs "r-xp"; m_offset := bs "00000000"; m_dev := bs "fe:00";
+     m_inode := bs "320173"; m_pad := 3; m_path := bs "/tmp/a"; m_deleted := false;
+     m_lines := [LFig FSize 0 (bs "4"); LFig FRss 0 (bs "4"); LFig FSwap 0 (bs "8")] |}.
+Definition stale_m2 : mapping :=
+  {| m_addr := bs "00401000-00402000"; m_perms := bs "rw-p"; m_offset := bs "00001000"; m_dev := bs "fe:00";
+     m_inode := bs "320173"; m_pad := 3; m_path := bs "/tmp/a"; m_deleted := false;
+     m_lines := [LFig FSize 0 (bs "4"); LFig FRss 0 (bs "4")] |}.
+Theorem maps_stale_dict_refuted :
+  forallb (wf_kernel no_files) [stale_m1; stale_m2] = true /\ uniform_figs [stale_m1; stale_m2] = false
+  /\ exists rows, memory_maps Alive no_files (FContent (k_smaps [stale_m1; stale_m2])) = Val rows
+                 /\ map (fun r => nth 9 (w_nums r) 0) rows = [8192; 8192]
+                 /\ map (fun r => nth 9 (w_nums r) 0) (map spec_row [stale_m1; stale_m2]) = [8192; 0].
+Proof. split; [vm_compute; reflexivity|]. split; [vm_compute; reflexivity|]. eexists. split; [vm_compute; reflexivity|]. split; reflexivity. Qed.
+
+(* a name beginning with an ASCII blank cannot be told from the kernel's column padding
+   (split(None, 5) drops it); no kernel name begins so *)
+Definition blank_m : mapping :=
+  {| m_addr := bs "00400000-00401000"; m_perms := bs "r-xp"; m_offset := bs "00000000"; m_dev := bs "fe:00";
+     m_inode := bs "320173"; m_pad := 3; m_path := 32 :: bs "/tmp/a"; m_deleted := false; m_lines := wit_lines |}.
+Theorem maps_leading_blank_observation :
+  wf_body (m_lines blank_m) = true /\ path_ok no_files blank_m = false
+  /\ exists rows, memory_maps Alive no_files (FContent (k_smaps [blank_m])) = Val rows
+                 /\ map w_path rows = [bs "/tmp/a"] /\ m_path blank_m = 32 :: bs "/tmp/a".
+Proof. split; [vm_compute; reflexivity|]. split; [vm_compute; reflexivity|]. eexists. split; [vm_compute; reflexivity|]. split; reflexivity. Qed.
+
+(* a newline in a name: the kernel writes \012 and psutil returns the name as shown; the kernel's
+   escaping is not injective (a file literally called "n\012l" is shown the same way), so
+   no decoder can return the own path in both cases *)
+Theorem maps_newline_name_observation :
+  wf_kernel no_files ex_m4 = true
+  /\ exists rows, memory_maps Alive no_files (FContent (k_smaps [ex_m4])) = Val rows
+                 /\ map w_path rows = [bs "/tmp/n\012l"]
+                 /\ kname ex_m4 = bs "/tmp/n\012l" /\ m_path ex_m4 = bs "/tmp/n" ++ [10] ++ bs "l"
+                 /\ kname {| m_addr := []; m_perms := []; m_offset := []; m_dev := []; m_inode := []; m_pad := 0;
+                             m_path := bs "/tmp/n\012l"; m_deleted := false; m_lines := [] |} = kname ex_m4.
+Proof. split; [vm_compute; reflexivity|]. eexists. split; [vm_compute; reflexivity|]. repeat split. Qed.
+
+(* for names without a newline the shown name is the name *)
+Theorem kname_own m : contains 10 (m_path m) = false -> kname m = m_path m.
+Proof. apply esc_nl_id. Qed.
+
+(* ------------------------------------------------ record layouts of the code (coq/Gen/C13_Tables.v) *)
+Theorem layouts_agree :
+  gen_pmem_fields = doc_pmem /\ gen_pfullmem_fields = doc_pfullmem
+  /\ gen_pmmap_grouped_fields = doc_grouped /\ gen_pmmap_ext_fields = doc_ext
+  /\ pmem_fields = doc_pmem /\ pfullmem_fields = doc_pfullmem /\ full_names = doc_pfullmem
+  /\ map_keys = map (fun f => fig_name f ++ [58]) row_figs.
+Proof. repeat split. Qed.
